@@ -664,7 +664,7 @@ def check(ctx, replay=None):
     cols = COLS
     bins = {}
     for i in range(0, len(cols), 4):        # at most 4 compilers at a time (shared machine)
-        bins.update(ctx.build_many([("c07_drv.cpp", c, ["-DC07_COL=" + c]) for c in cols[i:i + 4]]))
+        bins.update(ctx.build_many([("c07_drv.cpp", c, ["-DC07_COL=" + c] + core.release_flags("c07" + c)) for c in cols[i:i + 4]]))
     orc = ctx.build_oracle("c07")
     rng = ctx.rng
     if replay:
